@@ -6,24 +6,27 @@
   `defectOf` of the tree the implementation parsed.
 
   Why each condition is there (what `to_lucene` prints and how the grammar reads it back):
-  * `lucene_escape` leaves white space unescaped                       → `spaceInTerm`
+  * `lucene_escape` leaves white space — and U+3000, which the grammar does not allow unescaped in a
+    term either — unescaped                                            → `spaceInTerm`
   * attribute names are printed raw (`{attr}:`, `_exists_:{attr}`)      → `attrUnescaped`
   * `_exists_` / `_missing_` as the attribute of a term or phrase       → `attrReserved`
   * wildcards are printed raw                                           → `wildcardRaw`, `wildcardReparsed`
   * a printed term that starts with `AND OR NOT && ||` is not a `TERM`  → `keywordPrefix`
-  * the literal `"UNICODE3000"` in `INVALID_TERM_STARTS`                → `unicode3000`
   * floats print without exponent / fraction (`1.0` ↦ `1`), `inf`/`NaN` are not `NUMERIC_TERM`s
                                                                          → `numberText`
   * a string operand that starts like a number is read as `NUMERIC_TERM` → `cmpStringNumeric`
   * `RANGE_VALUE` knows no escapes; quotes, `*`, numbers are re-interpreted → `rangeString`
-  * shapes only a hand-built tree can have: mixed brackets, empty strings, Booleans with fewer than
-    two children, an unbounded comparison                               → `rangeMixed`, `emptyString`,
-                                                                           `smallBoolean`, `cmpUnbounded`
+  * empty strings (`""`) print as nothing; shapes only a hand-built tree can have: Booleans with
+    fewer than two children, an unbounded comparison                    → `emptyString`, `smallBoolean`,
+                                                                           `cmpUnbounded`
   * `-*:*` is only `MatchNoDocs` as a whole query; `NOT *:*` is folded to `MatchNoDocs`;
     `NOT NOT x` inside an `AND` group loses its parentheses            → `noneNested`, `notAll`, `notNotInAnd`
     (`NOT *:*` as an element of a Boolean group is fine)
   * a query text made of Unicode white space only is `MatchAllDocs` before the grammar is consulted
-    (`(\u{3000})` parses to a term that prints as such a text)          → `blankQuery`
+    (`(\u{a0})` parses to a term that prints as such a text)            → `blankQuery`
+  Repaired in /repo since the first version of this file: the literal "UNICODE3000" in
+  `INVALID_TERM_STARTS` (083e896; class `unicode3000` gone) and the panic on a range with brackets of
+  two kinds (21ebbb7; such ranges are accepted, in normal form, and round-trip — class `rangeMixed` gone).
 -/
 import VrlModel.Search.Visitor
 
@@ -33,7 +36,7 @@ open Grammar
 
 inductive Defect where
   | emptyString | spaceInTerm | attrUnescaped | attrReserved | wildcardRaw | wildcardReparsed
-  | keywordPrefix | unicode3000 | numberText | cmpStringNumeric | cmpUnbounded | rangeString | rangeMixed
+  | keywordPrefix | numberText | cmpStringNumeric | cmpUnbounded | rangeString
   | noneNested | notAll | notNotInAnd | smallBoolean | blankQuery
   deriving DecidableEq, Repr
 
@@ -45,12 +48,10 @@ def Defect.name : Defect → String
   | .wildcardRaw => "D_wildcard_raw"
   | .wildcardReparsed => "D_wildcard_reparsed"
   | .keywordPrefix => "D_keyword_prefix"
-  | .unicode3000 => "D_unicode3000"
   | .numberText => "D_number_text"
   | .cmpStringNumeric => "D_cmp_string_numeric"
   | .cmpUnbounded => "D_cmp_unbounded"
   | .rangeString => "D_range_string"
-  | .rangeMixed => "D_range_mixed_brackets"
   | .noneNested => "D_none_nested"
   | .notAll => "D_not_all"
   | .notNotInAnd => "D_not_not_in_and"
@@ -61,10 +62,11 @@ def Defect.name : Defect → String
 
 def hasWs (s : Str) : Bool := s.any isWs
 
-/-- "UNICODE3000" occurs somewhere in `s` -/
-def hasU3000 : Str → Bool
-  | [] => false
-  | c :: r => startsWith unicode3000 (c :: r) || hasU3000 r
+/-- a character `lucene_escape` prints as it is although a term cannot contain it unescaped:
+    WHITESPACE or U+3000 -/
+def isBlank (c : Char) : Bool := isWs c || c == '\u3000'
+
+def hasBlank (s : Str) : Bool := s.any isBlank
 
 /-- starts with one of the keywords `AND OR NOT && ||` -/
 def kwStart (s : Str) : Bool :=
@@ -111,12 +113,12 @@ def firstDefect : List (Bool × Defect) → Option Defect
 
 /-- defects of a value printed through `lucene_escape` and read back as `TERM` -/
 def escTermDefects (v : Str) : List (Bool × Defect) :=
-  [(v.isEmpty, .emptyString), (hasWs v, .spaceInTerm), (hasU3000 v, .unicode3000)]
+  [(v.isEmpty, .emptyString), (hasBlank v, .spaceInTerm)]
 
 /-- defects of a non-default attribute name printed raw in front of `:` -/
 def attrDefects (a : Str) : List (Bool × Defect) :=
   if a = defaultField then []
-  else [(a.isEmpty, .emptyString), (hasU3000 a, .unicode3000), (!rawTermChars a || kwStart a, .attrUnescaped)]
+  else [(a.isEmpty, .emptyString), (!rawTermChars a || kwStart a, .attrUnescaped)]
 
 /-- a numeric operand is printed by `core` and must come back as the same value -/
 def numTextOK (F : FloatLib) (cv : CV) : Bool :=
@@ -141,8 +143,8 @@ def cvDefectsRange (F : FloatLib) : CV → List (Bool × Defect)
 def leafDefects (F : FloatLib) : Leaf → List (Bool × Defect)
   | .matchAll => []
   | .matchNone => [(true, .noneNested)]
-  | .exists_ a => [(a.isEmpty, .emptyString), (hasU3000 a, .unicode3000), (!rawTermChars a || kwStart a, .attrUnescaped)]
-  | .missing a => [(a.isEmpty, .emptyString), (hasU3000 a, .unicode3000), (!rawTermChars a || kwStart a, .attrUnescaped)]
+  | .exists_ a => [(a.isEmpty, .emptyString), (!rawTermChars a || kwStart a, .attrUnescaped)]
+  | .missing a => [(a.isEmpty, .emptyString), (!rawTermChars a || kwStart a, .attrUnescaped)]
   | .term a v =>
     attrDefects a ++ [(a = existsField || a = missingField, .attrReserved)] ++ escTermDefects v ++
       [(kwStart v, .keywordPrefix)]
@@ -150,12 +152,12 @@ def leafDefects (F : FloatLib) : Leaf → List (Bool × Defect)
   | .pfx a p => attrDefects a ++ escTermDefects p ++ [(a = defaultField && kwStart p, .keywordPrefix)]
   | .wildcard a w =>
     attrDefects a ++
-      [(w.isEmpty, .emptyString), (!rawGlobChars w, .wildcardRaw), (hasU3000 w, .unicode3000),
+      [(w.isEmpty, .emptyString), (!rawGlobChars w, .wildcardRaw),
        (!(w.any isGlobChar || kwStart w) || prefixShape w, .wildcardReparsed),
        (a = defaultField && (w == ['*'] || kwStart w || qmarkAfterPlain w), .wildcardReparsed)]
   | .comparison a _ v => attrDefects a ++ cvDefectsCmp F v
-  | .range a lo li hi ui =>
-    attrDefects a ++ [(li != ui, .rangeMixed)] ++ cvDefectsRange F lo ++ cvDefectsRange F hi
+  | .range a lo _ hi _ =>
+    attrDefects a ++ cvDefectsRange F lo ++ cvDefectsRange F hi
 
 def leafDefect (F : FloatLib) (l : Leaf) : Option Defect := firstDefect (leafDefects F l)
 
@@ -194,8 +196,8 @@ def rootDefect (F : FloatLib) (t : QNode) : Option Defect :=
 
 /-! ### the normal form -/
 
-def escTermOK (v : Str) : Bool := !v.isEmpty && !hasWs v && !hasU3000 v
-def rawTermOK (a : Str) : Bool := !a.isEmpty && !hasU3000 a && rawTermChars a && !kwStart a
+def escTermOK (v : Str) : Bool := !v.isEmpty && !hasBlank v
+def rawTermOK (a : Str) : Bool := !a.isEmpty && rawTermChars a && !kwStart a
 def attrOK (a : Str) : Bool := a = defaultField || rawTermOK a
 def notReserved (a : Str) : Bool := !(a = existsField || a = missingField)
 
@@ -210,7 +212,7 @@ def rangeValueOK (F : FloatLib) : CV → Bool
   | cv => rangeBoundOK F cv
 
 def wildcardOK (a w : Str) : Bool :=
-  !w.isEmpty && rawGlobChars w && !hasU3000 w && (w.any isGlobChar || kwStart w) && !prefixShape w &&
+  !w.isEmpty && rawGlobChars w && (w.any isGlobChar || kwStart w) && !prefixShape w &&
   !(a = defaultField && (w == ['*'] || kwStart w || qmarkAfterPlain w))
 
 /-- leaves that print to a clause which parses back to themselves -/
@@ -224,7 +226,7 @@ def NFLeaf (F : FloatLib) : Leaf → Bool
   | .pfx a p => attrOK a && escTermOK p && !(a = defaultField && kwStart p)
   | .wildcard a w => attrOK a && wildcardOK a w
   | .comparison a _ v => attrOK a && cmpValueOK F v
-  | .range a lo li hi ui => attrOK a && li == ui && rangeValueOK F lo && rangeValueOK F hi
+  | .range a lo _ hi _ => attrOK a && rangeValueOK F lo && rangeValueOK F hi
 
 mutual
   /-- normal form of a tree printed as a whole (sub)query: the trees `parse (to_lucene t) = t` is
